@@ -316,20 +316,19 @@ Proof.
                          (Z.of_nat (length (body u)))); [reflexivity|lia].
 Qed.
 
-(* C17: the reader is a total function with exactly these outcomes; the only
-   non-diagnostic failure is the Index bug, and it needs two table entries
-   among the used ones (or a later entry) carrying the same section name. *)
+(* C17: the reader is a total function with exactly these outcomes: a refusal with a
+   diagnostic, or a header that passes every check of libChkHeader. *)
 Theorem reader_total file :
-  (exists m, read_lib P file = Refused m) \/ read_lib P file = Fault \/
+  (exists m, read_lib P file = Refused m) \/
   (exists h, read_lib P file = Loaded h /\ chk_header P h = ChkOk).
 Proof.
   unfold read_lib.
   destruct (Z.of_nat (length file) <? lp_hdr_size P); [left; eauto|].
   destruct (parse_hdr P file) as [[h r]|]; [|left; eauto].
-  destruct (chk_header P h) eqn:E; [|left; eauto|right; left; reflexivity].
+  destruct (chk_header P h) eqn:E; [|left; eauto].
   destruct (0 <? h_num h).
-  - destruct (Z.of_nat (length file) <? _); [left; eauto | right; right; eauto].
-  - right; right; eauto.
+  - destruct (Z.of_nat (length file) <? _); [left; eauto | right; eauto].
+  - right; eauto.
 Qed.
 
 End WithParams.
